@@ -23,6 +23,8 @@ KindPool ==
   \cup (IF "tuple" \in KindSet THEN {[k |-> "tuple", fn |-> 0, slots |-> 0]} ELSE {})
   \cup (IF "dict" \in KindSet THEN {[k |-> "dict", fn |-> 0, slots |-> 0]} ELSE {})
   \cup (IF "ntuple" \in KindSet THEN {[k |-> "ntuple", fn |-> 0, slots |-> 2]} ELSE {})
+  \* an opaque mutable leaf object (e.g. a set): identity matters, nothing inside to traverse
+  \cup (IF "mleaf" \in KindSet THEN {[k |-> "mleaf", fn |-> 0, slots |-> 0]} ELSE {})
   \cup (IF "tagged" \in KindSet THEN {[k |-> "tagged", fn |-> 0, slots |-> 1]} ELSE {})
 
 Root == Len(heap)
